@@ -693,12 +693,16 @@ def make_step(rec, cfg, mode, tier):
             if dis:
                 fail("disagree", pre, op, dis[0], hist_)
                 return None
+        if key in bad_keys:
+            return None  # this very state already failed its probes (reported once)
         is_new = key not in seen_keys
         if is_new:
             seen_keys.add(key)
             if not in_memory and not read_all_probe(ctx, m2, pre, op, hist_, skip, tainted):
+                bad_keys.add(key)
                 return None
             if not reload_probe(ctx, m2, pre, op, hist_, agreement_only=tainted):
+                bad_keys.add(key)
                 return None
             if changed_far:
                 rec.sample(dict(config=cfgname, history=[op_text(w, h) for h in hist_], op=op_text(w, op), relation=[list(p) for p in m2.pairs()]), limit=3)
@@ -708,6 +712,7 @@ def make_step(rec, cfg, mode, tier):
         return m2, key
 
     seen_keys = set()
+    bad_keys = set()
 
     def read_all_probe(ctx, m2, pre, op, hist_, skip, tainted):
         """read every still-unloaded side (lazy load, autoflush on): what was
